@@ -58,6 +58,72 @@ impl<'a, T: 'a> RingBuffer<'a, T> {
     pub(crate) fn kani_read_at(&self) -> usize { self.read_at }
 }
 
+//@@ append src/storage/packet_buffer.rs
+// companions: symbolic PacketBuffer, representation invariant and abstract view, generic in the header type
+#[cfg(kani)]
+#[derive(Clone, Copy)]
+pub(crate) struct KaniPbView<H: Copy> { pub count: usize, pub hdr: Option<H>, pub size: usize, pub byte: u8 }
+
+#[cfg(kani)]
+impl<'a, H: Copy> PacketBuffer<'a, H> {
+    /// symbolic buffer over the given storage slices (ring positions symbolic; metadata contents as given)
+    pub(crate) fn kani_any(ms: &'a mut [PacketMetadata<H>], ps: &'a mut [u8]) -> PacketBuffer<'a, H> {
+        PacketBuffer { metadata_ring: RingBuffer::kani_any(ms), payload_ring: RingBuffer::kani_any(ps) }
+    }
+    pub(crate) fn kani_meta(size: usize, header: Option<H>) -> PacketMetadata<H> { PacketMetadata { size, header } }
+    /// J_pb: sizes sum to the payload ring length, every record is contiguous in storage, padding records are never
+    /// empty nor consecutive and end at the wrap point (or are the first record starting at 0)
+    pub(crate) fn kani_inv(&self, max_records: usize) -> bool {
+        let pcap = self.payload_ring.capacity();
+        let mlen = self.metadata_ring.len();
+        let mut off = 0usize;
+        let mut i = 0;
+        let mut prev_padding = false;
+        while i < max_records {
+            if i < mlen {
+                let m = self.metadata_ring.get_allocated(i, 1)[0];
+                if m.size > pcap { return false; }
+                let start = if pcap == 0 { 0 } else { (self.payload_ring.kani_read_at() + off) % pcap };
+                if m.header.is_none() {
+                    if prev_padding || m.size == 0 || !(start + m.size == pcap || (i == 0 && start == 0 && m.size <= pcap)) { return false; }
+                    prev_padding = true;
+                } else {
+                    if start + m.size > pcap { return false; }
+                    prev_padding = false;
+                }
+                off += m.size;
+                if off > pcap { return false; }
+            }
+            i += 1;
+        }
+        mlen <= max_records && off == self.payload_ring.len()
+    }
+    /// abstract view at ghost (pk, pj): number of packets; header, size and byte pj of packet pk
+    pub(crate) fn kani_view(&self, max_records: usize, pk: usize, pj: usize) -> KaniPbView<H> {
+        let pcap = self.payload_ring.capacity();
+        let mut off = 0usize;
+        let mut count = 0usize;
+        let mut v = KaniPbView { count: 0, hdr: None, size: 0, byte: 0 };
+        let mut i = 0;
+        while i < max_records {
+            if i < self.metadata_ring.len() {
+                let m = self.metadata_ring.get_allocated(i, 1)[0];
+                if let Some(h) = m.header {
+                    if count == pk {
+                        v.hdr = Some(h); v.size = m.size;
+                        if pj < m.size && pcap > 0 { v.byte = self.payload_ring.get_allocated(off + pj, 1).first().copied().unwrap_or(0); }
+                    }
+                    count += 1;
+                }
+                off += m.size;
+            }
+            i += 1;
+        }
+        v.count = count;
+        v
+    }
+}
+
 //@@ append src/iface/interface/mod.rs
 #[cfg(kani)]
 impl InterfaceInner {
